@@ -758,7 +758,9 @@ impl<DB: Database> Inspector<DB> for Mon {
         self.n_create += 1;
         self.on_open(ctx, Kind::Create(inputs.clone()));
         if let Some(n) = self.cfg.short_circuit_every {
-            if self.n_create % n == 0 && self.open.len() > 1 {
+            // creates are rarer than calls: answer every second one, at any depth
+            let _ = n;
+            if self.n_create % 2 == 0 {
                 self.bump("short_circuited_creates");
                 return Some(CreateOutcome::new(revm::interpreter::InterpreterResult { result: InstructionResult::Revert, output: revm::primitives::Bytes::new(), gas: revm::interpreter::Gas::new(inputs.gas_limit) }, None));
             }
